@@ -313,17 +313,28 @@ theorem sliding_inRange_invariant (cfg : Cfg) :
 
 example : InRange 3 (⟨[[1, 2, 3], [4, 0, 6], [7, 5, 8]], (1, 1), 0⟩ : State).board := by decide
 
+/-! NOTE on what the membership theorems of this section do and do not cover (audits r4 #6, r5 #6, r6 #8): the dtype tag of every leaf
+is written by `toNValue` (by construction) — a wrong dtype in the real code cannot falsify `….valid (toNValue …) = true`; dtypes and
+field order of the real observations are compared by the `sliding_tile_puzzle.spec` / `sliding_tile_puzzle.state` ops (`nvalue`: field order, shape, dtype, data) and
+`jax.eval_shape` in the sweeps.  Shapes are READ OFF the value by `toNValue` (widths off the first row): see `…_obs_valid_only`. -/
+
 /-! #### membership in the DECLARED specs (structure, shapes, dtypes and bounds; audit r3 entry 9) -/
 open Sp PzS
 
 /-- the model's `obsSpec` / `actionSpec` / reward and discount specs ARE the specs generated from the real spec objects
-(Gen/Specs.lean) for the catalogue configuration of SlidingTilePuzzle -/
+(Gen/Specs.lean) for the catalogue configuration of SlidingTilePuzzle
+SPEC-ONLY second configuration: grid size 5 (tiles up to 24, blank position up to 4 — not the mask length 4), time limit 13 -/
 theorem sliding_obsSpec_generated :
     prefixed "observation_spec." (obsSpec ⟨3, true, 15⟩) = declared "slidingtile-3" "observation_spec." ∧
     [("action_spec", actionSpec)] = declared "slidingtile-3" "action_spec" ∧
     [("reward_spec", rewardSpec)] = declared "slidingtile-3" "reward_spec" ∧
-    [("discount_spec", discountSpec)] = declared "slidingtile-3" "discount_spec" := by
-  refine ⟨by decide, by decide, by decide, by decide⟩
+    [("discount_spec", discountSpec)] = declared "slidingtile-3" "discount_spec" ∧
+    prefixed "observation_spec." (obsSpec ⟨5, true, 13⟩) = declared "spec-only-slidingtile-5" "observation_spec." ∧
+    [("action_spec", actionSpec)] = declared "spec-only-slidingtile-5" "action_spec" ∧
+    [("reward_spec", rewardSpec)] = declared "spec-only-slidingtile-5" "reward_spec" ∧
+    [("discount_spec", discountSpec)] = declared "spec-only-slidingtile-5" "discount_spec" := by
+  refine ⟨by decide +kernel, by decide +kernel, by decide +kernel, by decide +kernel, by decide +kernel, by decide +kernel,
+    by decide +kernel, by decide +kernel⟩
 
 /-- the `reset` observation (ALL sizes n ≥ 1, any tape of possible draws, time limit ≥ 0) is accepted by
 `observation_spec.validate`: fields `puzzle`, `empty_tile_position`, `action_mask`, `step_count`; shapes `(n, n)`, `(2,)`, `(4,)`,
